@@ -60,6 +60,15 @@ func c29Vals(r *rng.Rand, typ string, n int) []byte {
 		if typ == "bool" {
 			w[0] &= 1
 		}
+		if typ == "string16" && r.Chance(50) {
+			// text-like values: ASCII runes with zero runes sprinkled in (leading, interior and trailing padding)
+			for j := 0; j < 16; j++ {
+				w[4*j], w[4*j+1], w[4*j+2], w[4*j+3] = 0, 0, 0, 0
+				if !r.Chance(40) {
+					w[4*j] = byte(0x30 + r.Intn(75))
+				}
+			}
+		}
 	}
 	return b
 }
